@@ -78,6 +78,8 @@ def run(ctx):
     rule_other(ctx, F)
     rule_first(ctx, F)
     rule_reset(ctx, F)
+    rule_macfirst(ctx, F)
+    rule_restoreid(ctx, F)
 
 
 def _calls(b, rx):
@@ -950,3 +952,48 @@ def rule_reset(ctx, F):
            "calls: %d, replacements of self.context: %d): the second signed message of a sequence is then digested as request "
            "MAC || MAC#1 || message instead of MAC#1 || message -- the library's own client repeats the mistake, an RFC 8945 "
            "peer answers BADSIG" % (len(fresh), len(swap) + len(assign)))
+
+
+def rule_macfirst(ctx, F):
+    """RFC 8945 5.3: a client checks the MAC of an answer first and the time only of an answer whose MAC is right --
+    what an answer with a wrong MAC says about time (a BADTIME error with a server time, a time outside the window) is
+    not the server speaking.  Every `check_answer_time` call is dominated by a successful `compare_signatures`."""
+    R = "C11.macfirst"
+    ctx.floor(R, 3)
+    n = 0
+    for p, b in sorted(F.bodies.items()):
+        if "::test" in p or not re.match(r"^<?tsig::", p):
+            continue
+        for bb, t in b.calls():
+            if not re.search(r"::check_answer_time$", t["fn"] or ""):
+                continue
+            n += 1
+            ok = any(o == "success" and re.search(r"compare_signatures$", (deep_strip(s)[1] or "") if deep_strip(s)[0] == "call" else "")
+                     for s, o in outcome_facts(b, bb, F))
+            ctx.ob(R, b, "the answer's time is looked at only behind a matching MAC", ok,
+                   "%s calls check_answer_time on a path where compare_signatures has not succeeded: an answer forged without the "
+                   "key is reported as the server's BADTIME (with a server time of the forger's choosing) instead of BadSig"
+                   % p.split("tsig::")[-1], b.where(bb))
+    ctx.call_sites += n
+
+
+def rule_restoreid(ctx, F):
+    """Successful verification returns the message as it was signed: `remove_tsig` writes the original ID into the
+    message itself -- `set_id` on `message.header_mut()` -- not into a copy of the header (`header_section()`,
+    `header()` return values)."""
+    R = "C11.restoreid"
+    ctx.floor(R, 1)
+    b = F.one_body(r"^tsig::remove_tsig$")
+    if not ctx.anchor(R, "tsig::remove_tsig", b):
+        return
+    sets = b.calls_matching(r"Header::set_id$")
+    if not ctx.anchor(R, "set_id in remove_tsig", len(sets) >= 1, b.where()):
+        return
+    for bb, t in sets:
+        recv = deep_strip(b.term_of_operand(t["args"][0]))
+        val = deep_strip(b.term_of_operand(t["args"][1]))
+        inplace = recv[0] == "call" and re.search(r"Message::<.*>::header_mut$", recv[1] or "") is not None \
+            and deep_strip(recv[3][0]) == ("arg", 2)
+        ctx.ob(R, b, "the original ID is written into the message", inplace and val == ("arg", 1),
+               "remove_tsig sets the ID on %s (value %s), not on message.header_mut(): the ID lands in a temporary copy and the "
+               "verified message keeps the ID it travelled with" % (show(recv)[:80], show(val)[:40]), b.where(bb))
